@@ -570,7 +570,7 @@ pub fn run(tier: Tier, seed: u64) -> i32 {
     let st2 = engine::run_spec(&sp2, tier, seed ^ 0x1616);
     let n2 = st2.evaluations;
     stats.merge(st2);
-    let sp3 = Spec { id: "C16", rule: RULE, tape_len: 400, cases: tier.pick(1_600, 60_000), gen: gen_xcase, check: check_x, max_shrink_iters: 300, shards: 16 };
+    let sp3 = Spec { id: "C16", rule: RULE, tape_len: 400, cases: tier.pick(1_600, 12_000), gen: gen_xcase, check: check_x, max_shrink_iters: 300, shards: 16 };
     let st3 = engine::run_spec(&sp3, tier, seed ^ 0x1617);
     let n3 = st3.evaluations;
     stats.merge(st3);
